@@ -99,6 +99,11 @@ fn tip(ch: &mut Choices) -> mp::chainsync::Tip {
     mp::chainsync::Tip(point(ch), u64v(ch))
 }
 pub fn blob(ch: &mut Choices, max: usize) -> Vec<u8> {
+    // one body in thirty-two is larger than a mux segment can carry (60..140 kB, expanded from one drawn
+    // seed): the real muxer then sends the message in several segments, whatever its type
+    if max >= 500 && ch.draw("blob.big", 32) == 31 {
+        return crate::engines::p2p::adapter::big_blob(ch);
+    }
     let n = match ch.draw("blob.class", 6) {
         0 => 0,
         1 => 1 + ch.draw("blob.small", 23) as usize,
